@@ -47,7 +47,7 @@ func treeSet(depth int) []*RIDL {
 		out = append(out, &RIDL{Name: name, Members: ms})
 	}
 	b := baseMembers()
-	for _, n := range []string{"a.b", "Com.example.uppercase-toplevel", "xn--lgbbat1ad8j.example.algeria", "a.0b-c", "org.varlink.service"} {
+	for _, n := range []string{"a.b", "Com.example.uppercase-toplevel", "xn--lgbbat1ad8j.example.algeria", "a.0b-c", "org.varlink.service", "org.example.my-cool-service", "a.b-c-d-e.f-g-h", "xn--ab.c-d-e"} {
 		add(n, b...)
 	}
 	for _, t := range typeSet(depth) {
@@ -455,7 +455,8 @@ func runC06(tier string, r *Result) {
 	if tier != "quick" {
 		depth = 2
 	}
-	ins := []string{"type", "method", "error", "T", "a", "(", ")", ":", ",", "->", "?", "[]", "[string]", "[int]", "int", "§", "interface", "#", "#\n", "# c\n", "#  \n", "#\r\n"}
+	ins := []string{"type", "method", "error", "T", "a", "(", ")", ":", ",", "->", "?", "[]", "[string]", "[int]", "int", "§", "interface", "#", "#\n", "# c\n", "#  \n", "#\r\n",
+		"[T]", "[strin]", "[stringy]", "[?]", "[(]", "[a]", "[ ]", "[string ]"}
 	for ti, d := range treeSet(depth) {
 		if !r.mine(ti) {
 			continue
